@@ -20,7 +20,7 @@ def cases(tier):
 
 PROPERTY = Property(
     'C40',
-    [Harness('c40_csc', SVC_CSC, 'harness/c40_csc.c', cases, unwind=10, timeout=300,
+    [Harness('c40_csc', SVC_CSC, 'harness/c40_csc.c', cases, unwind=22, timeout=600,
              description='real CSC control point write / response-read handlers vs. a ghost "accepted procedure awaits its response" model: '
                          'inductive write step and response step from every state, bounded histories from construction with a final no-deadlock probe',
              bounds='3 service configurations; step: every state (pending flag, stored opcode, sensor positions) x write of LEN bytes '
